@@ -126,7 +126,18 @@ class DAGRunConcurrentManager(DAGRunManagerLike):
         """
 
         for coro_task in coro_tasks:
-            if coro_task.done() and not coro_task.cancelled() and isinstance(coro_task.exception(), BaseException):
+            if not coro_task.done():
+                continue
+
+            if coro_task.cancelled():
+                # The manager stops its tasks only when the run is over. A task that has been cancelled before that
+                # was executing a node which raised CancelledError itself: it is the error of the run.
+                try:
+                    coro_task.exception()
+                except asyncio.CancelledError as ex:
+                    return ex
+
+            elif isinstance(coro_task.exception(), BaseException):
                 return coro_task.exception()
 
         return None
